@@ -7,6 +7,11 @@ import re
 
 _INT = re.compile(r"^-?[0-9]+$")
 _PLUS_INT = re.compile(r"^\+[0-9]+$")
+_BLANKS = " \t\n\r\x0b\x0c"
+
+
+def _tokens(line):
+    return [t for t in re.split("[ \t\n\r\x0b\x0c]+", line) if t]
 
 
 class Valid:
@@ -55,13 +60,15 @@ def read_dimacs(text):
     cur = []
     gray = None
     for raw in lines:
-        line = raw.strip()
+        # blanks are the ASCII ones: U+001C..U+001F, U+0085, U+2028, ... are
+        # white space for python, not for DIMACS
+        line = raw.strip(_BLANKS)
         if line == "" or line[0] == "c":
             continue
         if line[0] == "p":
             if n is not None:
                 return Invalid("second problem line")
-            toks = line.split()
+            toks = _tokens(line)
             if len(toks) != 4:
                 return Invalid("ill-formed problem line")
             if toks[0] != "p":
@@ -87,7 +94,7 @@ def read_dimacs(text):
             continue
         if n is None:
             return Invalid("clause before problem line")
-        for tok in line.split():
+        for tok in _tokens(line):
             if not _INT.match(tok):
                 if _PLUS_INT.match(tok):
                     gray = gray or "integer written with a plus sign"
